@@ -8,7 +8,8 @@ Line-protocol driver for the executable model WITH snapshots (C12). Same protoco
     SNAP                        -> {"snap": <the JSON value `snap m s`>, "q": queue length, "rd": raiseDepth,
                                     "sane": `SnapOK` as a Bool, "disorted": `DISorted` as a Bool}
     RESTORE <json>              -> the usual observation of the restored state (`restore m j`), which replaces the
-                                   run state; or {"rerr":"InvalidConfigError|StateNotFoundError|SHAPE:<key>"} (state kept)
+                                   run state; or {"rerr":"InvalidConfigError|StateNotFoundError"} (state kept), with
+                                   "key":"<key>" when `_validate_snapshot_shape` refused it (`RErr.shape key`)
 
 
     M <machine-json>            -> {"ok":true} | {"ok":false,"err":"<kind>: ..."}
@@ -97,7 +98,11 @@ partial def renderJ : J → String
 def rerrStr : RErr → String
   | .invalidConfig _ => "InvalidConfigError"
   | .stateNotFound _ => "StateNotFoundError"
-  | .shape k => "SHAPE:" ++ k
+  | .shape _ => "InvalidConfigError"
+
+def rerrKey : RErr → String
+  | .shape k => ",\"key\":" ++ jstr k
+  | _ => ""
 
 structure DS where
   m : Option Machine := none
@@ -194,7 +199,7 @@ def handle (d : DS) (line : String) : DS × String :=
       | .error _ => (d, "{\"rerr\":\"InvalidConfigError\"}")
       | .ok j =>
         match restore mm j with
-        | .error e => (d, "{\"rerr\":" ++ jstr (rerrStr e) ++ "}")
+        | .error e => (d, "{\"rerr\":" ++ jstr (rerrStr e) ++ rerrKey e ++ "}")
         | .ok s' => ({ d with s := resume s' }, render mm (resume s') "")
     else if line.startsWith "SEND " then go (send d.fl mm uenv (.user (dropPrefix line 5)))
     else if line.startsWith "AFTER " then go (send d.fl mm uenv (.after (dropPrefix line 6)))
